@@ -1,4 +1,5 @@
 /- tier-K lifts used by the bit-buffer proofs (KEEP_LAST, pad bytes, count widths) -/
+import FastQr.Props.C05Tables
 import FastQr.Finite.TablesMisc
 import FastQr.Proofs.Lift
 import FastQr.Props.C05
